@@ -3,6 +3,7 @@
 usage: recheck.py C33 C34 ...   (prints only deviations from the recorded expectation)"""
 import json, os, subprocess, sys, glob
 here = os.path.dirname(os.path.dirname(os.path.abspath(__file__)))
+TREE = os.environ.get("VERIF_TREE", "/repo")  # a scratch worktree can stand in for /repo
 props = [p for a in sys.argv[1:] for p in a.split(",") if p]
 if not props:
     print(__doc__); sys.exit(2)
@@ -30,22 +31,22 @@ for d in sorted(glob.glob(os.path.join(here, "seeded", "*"))):
     want = sorted(meta.get("verification", {}).get("caught_by") or [])
     patch = os.path.join(d, "patch_rebased.diff") if os.path.exists(os.path.join(d, "patch_rebased.diff")) else os.path.join(d, "patch.diff")
     ok = False
-    for cmd in ("git -C /repo apply %s", "git -C /repo apply -C1 %s", "cd /repo && patch -p1 -F3 --no-backup-if-mismatch < %s"):
+    for cmd in ("git -C " + TREE + " apply %s", "git -C " + TREE + " apply -C1 %s", "cd " + TREE + " && patch -p1 -F3 --no-backup-if-mismatch < %s"):
         if subprocess.run(["bash", "-c", cmd % patch], capture_output=True).returncode == 0:
             ok = True
             break
-        subprocess.run(["bash", "-c", "git -C /repo checkout -- ."])
+        subprocess.run(["bash", "-c", "git -C " + TREE + " checkout -- ."])
     if not ok:
         print("SEED %s: patch does not apply" % name); bad += 1
         continue
     try:
         got = []
         for p in (want or [prop]):
-            r = subprocess.run([os.path.join(here, "bin", "snapverif"), "check", "-p", p, "-tier", "quick", "-noevidence"], capture_output=True, text=True, cwd=here)
+            r = subprocess.run([os.path.join(here, "bin", "snapverif"), "check", "-p", p, "-tier", "quick", "-noevidence", "-repo", TREE], capture_output=True, text=True, cwd=here)
             if r.returncode == 1:
                 got.append(p)
     finally:
-        subprocess.run(["bash", "-c", "git -C /repo checkout -- ."])
+        subprocess.run(["bash", "-c", "git -C " + TREE + " checkout -- ."])
     if sorted(got) != want:
         bad += 1
         print("SEED %s: recorded caught_by=%s now=%s" % (name, want, got))
